@@ -20,13 +20,14 @@ PROPERTY = "C07"
 RULE = ("five families, real temp directories on the implementation side. vhdx: differencing chains depth 2..4, per-block states "
         "incl. partially-present blocks with per-sector bitmaps (runs of 1..64 sectors, arbitrary alignment), parent locator relative / "
         "absolute / both / missing. hdd: Parallels snapshot trees (chains depth 1..4 + side branches, explicit and default TopGUID, "
-        "plain roots, XML order shuffled, moved directories). qcow2: backing chains (raw / qcow2, shorter / longer), internal "
+        "plain roots, XML order shuffled, moved directories; an unresolvable ancestor at every depth — unknown ParentGUID of the opened snapshot, "
+        "of its parent ... of the root, or the ancestor's Shot deleted — with all image files present: opening must fail). qcow2: backing chains (raw / qcow2, shorter / longer), internal "
         "snapshots read after the active image has been read (history), missing backing. vdi: parent chains. vmdk: delta descriptors "
         "naming 1..4 sparse extents (cuts unrelated to grain sizes and to the parent's extents) over a parent descriptor (hint: same directory, sibling directory, Windows-style path, missing). Non-trivial = depth ≥ 2 and "
         "(for content families) a request that crosses an allocation-unit boundary; distinct recipe hash. Resolution layouts (c07_resolve.py): "
         "rx = VHDX parent locators (first / second key, table order, stale or unusable first key, missing keys, drive letters, case, `..` through a "
         "missing directory, cycles, three directories deep), rh = Parallels .hdd directories (relative / absolute image names, the three fall-back "
-        "places and their precedence, opening through a file of the directory, explicit snapshot GUID, missing / cyclic / duplicated shots, absent "
+        "places and their precedence, opening through a file of the directory, explicit snapshot GUID, missing (parent, grand-parent, root reference, deleted Shot, below an explicit GUID) / cyclic / duplicated shots, absent "
         "image or descriptor), rq = QCOW2 backing names (relative / absolute, no handle / opt-out / another handle); the paths the real code opens "
         "(audit hook) are compared with the paths the model opens and with the placement the generator intended.")
 ASSUMPTIONS = ["content families: pathlib / os existence tests on the implementation side, the model receives the resolved chain; resolution families (rx / rh / rq): "
@@ -72,6 +73,18 @@ def generate(seed, tier):
         r["variant"] = rng.choice(["ok", "ok", "ok", "missing_image", "moved"])
         t = gen_hdd.Truth(r)
         cases.append({"id": f"h{i}", "fam": "hdd", "recipe": r, "align": rng.choice([8192] * 4 + [512, 65536]), "queries": gen_hdd.gen_queries(rng, t, 8 if tier == "quick" else 14)})
+    # hdd: a required ancestor of the opened snapshot cannot be resolved, at every depth of the chain (the opened snapshot's parent,
+    # its grand-parent, ... the root's parent reference), every image file present: opening must fail, not present the upper layers alone
+    hrng = random.Random(f"C07hdd-ancestor/{seed}/{tier}")
+    for i in range(n // 4 + 2):
+        r = gen_hdd.gen_recipe(hrng, tier, max_depth=4, min_depth=1 + i % 4)
+        depth = len(r["chain"])
+        how = "deleted_shot" if (i % 3 == 2 and depth >= 2) else "unknown_parent"
+        j = (i // 4) % depth if how == "unknown_parent" else 1 + (i // 4) % (depth - 1)
+        gen_hdd.break_ancestor(r, hrng, j, how)
+        r["variant"] = "missing_ancestor"
+        t = gen_hdd.Truth(r)
+        cases.append({"id": f"ha{i}", "fam": "hdd", "recipe": r, "align": hrng.choice([8192] * 4 + [512, 65536]), "queries": gen_hdd.gen_queries(hrng, t, 4)})
     for i in range(n):
         r = gen_qcow2.gen_recipe(rng, tier, backing=rng.choice(["raw", "qcow2", "qcow2"]), nsnaps=rng.choice([0, 1, 2, 3]), snap_small_l1=0.1)
         t = gen_qcow2.Truth(r)
@@ -129,11 +142,12 @@ def build(case):
             a, e, kind, names = tok.split(":", 3)
             names = "+".join(("raw=" + ids[n[4:]]) if n.startswith("raw=") else ids[n] for n in names.split("+"))
             toks.append(f"{a}:{e}:{kind}:{names}")
-        truth = ["E"] if var == "missing_image" else core.truth_ops(t.size, t.read, case["queries"])
+        truth = ["E"] if var in ("missing_image", "missing_ancestor") else core.truth_ops(t.size, t.read, case["queries"])
         depth = len(r["chain"])
+        broken = [f"broken_at{r['broken']['at']}", r["broken"]["how"]] if var == "missing_ancestor" else []
         b = Built({ids[n]: im for n, im in t.files.items()}, truth,
-                  {"branches": ["hdd", f"depth{depth}", var] + (["explicit_top"] if r["top_explicit"] else []), "crosses": True, "depth": depth, "in_scope": True,
-                   "tokens": toks, "missing": var == "missing_image"})
+                  {"branches": ["hdd", f"depth{depth}", var] + broken + (["explicit_top"] if r["top_explicit"] else []), "crosses": True,
+                   "depth": max(depth, 2) if broken else depth, "in_scope": True, "tokens": toks, "missing": var == "missing_image"})
         b.t = t
         return b
     if fam == "qcow2":
@@ -257,6 +271,11 @@ def model_lines(case, built):
                                                f"vhdx.chaincheck {a} {len(ids)} " + " ".join(ids) + " " + toks]
     if fam == "hdd":
         st = built.info["tokens"]
+        if r["variant"] == "missing_ancestor":
+            # Descriptor.get_snapshot_chain in the model (Hdd.snapshotChain): shots as written, NULL GUID, the GUID HDD.open() starts from
+            import uuid
+            gi = lambda g: uuid.UUID(g).int          # noqa: E731
+            return core.file_lines(built.files) + [" ".join(["hdd.chain", str(gi(gen_hdd.NULL)), str(gi(r["top"]))] + [f"{gi(g)}>{gi(p)}" for g, p in r["shots"]])]
         if built.info["missing"]:
             # the first storage's root image is absent
             st = [st[0].rsplit(":", 1)[0] + ":absent"] + st[1:]
